@@ -65,7 +65,11 @@ X11_DEFAULT = dict(N=3, MaxX=3, ServerAllows='TRUE', AtomicOpen='FALSE',
                    KeepClosedCookies='FALSE')
 X11_INVS = ['ServedOnlyLive', 'LiveIsServed', 'ValidExact', 'RegExact',
             'ClientListener', 'ServerListener', 'Published', 'SingleOnce']
-DEFAULTS = {'Forward': FWD_DEFAULT, 'Socks': SOCKS_DEFAULT,
+LA_DEFAULT = dict(N=3, Sides='{"remote", "local"}', Fams='{"tcp", "unix"}',
+                  LateStore='{}')
+LA_INVS = ['ListenersReleased', 'SocketsExact', 'NoLateListener']
+DEFAULTS = {'ListenAsync': LA_DEFAULT,
+            'Forward': FWD_DEFAULT, 'Socks': SOCKS_DEFAULT,
             'ForwardPerm': PERM_DEFAULT, 'Listeners': LSN_DEFAULT,
             'X11': X11_DEFAULT}
 LSN_INVS = ['Routing', 'ClosedRefuses', 'RegistryExact', 'AddressesDistinct']
@@ -229,6 +233,27 @@ LSN_REGRESSIONS = [
                     LC('rsrv')], [4, 2])),
 ]
 
+# listeners whose creation is asynchronous vs. the end of the connection
+LAC = lambda side, fam: dict(side=side, fam=fam)
+LA_REGRESSIONS = []
+for _side in ('remote', 'local'):
+    for _fam in ('tcp', 'unix'):
+        for _end in ('cclose', 'sclose', 'loss'):
+            _r = ('request', 1, LAC(_side, _fam))
+            if _side == 'remote':
+                LA_REGRESSIONS += [
+                    [_r, ('end', _end), ('decide', 1, True), ('setup', 1)],
+                    [_r, ('decide', 1, True), ('end', _end), ('setup', 1)],
+                    [_r, ('end', _end), ('decide', 1, False)]]
+            else:
+                LA_REGRESSIONS += [[_r, ('end', _end), ('setup', 1)]]
+LA_REGRESSIONS += [
+    [('request', 1, LAC('remote', 'tcp')), ('decide', 1, True), ('setup', 1),
+     ('request', 2, LAC('remote', 'unix')), ('request', 3, LAC('local', 'tcp')),
+     ('cancel', 1), ('decide', 2, True), ('end', 'loss'), ('setup', 2),
+     ('setup', 3)],
+]
+
 # X11 forwarding: fixed schedules (model-free labels)
 XR, XA, XC = (lambda s, sc=False: ('request', s, sc)), \
     (lambda s: ('answer', s)), (lambda s: ('close', s))
@@ -364,6 +389,17 @@ def main(ctx):
                 FixCross='TRUE' if fix_cross else 'FALSE',
                 CreditDropped='TRUE' if credit else 'FALSE')
     ctx.notes.append(f'code variant detected: {asis}')
+    # does a listener that becomes ready after its connection ended stay open?
+    late = []
+    for side in ('remote', 'local'):
+        pr = F.replay_listen_async(
+            [('request', 1, dict(side=side, fam='tcp')), ('end', 'cclose')] +
+            ([('decide', 1, True)] if side == 'remote' else []) +
+            [('setup', 1)])
+        if pr['l1']:
+            late.append(side)
+    late_store = '{' + ', '.join(f'"{x}"' for x in late) + '}'
+    ctx.notes.append(f'late listeners stay open on: {late or "no side"}')
     T = lambda b: 'TRUE' if b else 'FALSE'
 
     phase('detect')
@@ -455,6 +491,13 @@ def main(ctx):
                         expect='NeverOlderDynamic'))
         jobs.append(Job('listeners witness port in use', 'Listeners', {},
                         ['NeverFailedOpen'], expect='NeverFailedOpen'))
+    # asynchronous listener creation vs. connection end
+    jobs.append(Job('listen-async required rules', 'ListenAsync', {}, LA_INVS,
+                    view=False))
+    jobs.append(Job('listen-async sensitivity LateStore (expected '
+                    'ListenersReleased)', 'ListenAsync',
+                    dict(LateStore='{"remote"}'), ['ListenersReleased'],
+                    expect='ListenersReleased', view=False))
     # X11 forwarding
     jobs.append(Job('x11 rules', 'X11',
                     dict(N=2, MaxX=3) if quick else dict(MaxX=3),
@@ -500,6 +543,8 @@ def main(ctx):
             dict(asis, MaxW=3, Keeps=ALL_KEEPS, AllowFail='FALSE',
                  AllowReset='FALSE', AllowCut='FALSE', AllowLsn='FALSE'),
             simulate=n, depth=30, view=False)]
+    if quick:
+        sims = sims[:-1]        # 'sim window 3 flow' covers long clean runs
     wsims = [
         Job('sim window 2', 'Forward',
             dict(asis, Win=2, MaxW=4, Keeps=ALL_KEEPS, AllowCut='FALSE',
@@ -527,6 +572,8 @@ def main(ctx):
             dict(N=4, MaxConn=7, KindSet='{"rfwd", "rsrv", "lfwd", "socks"}',
                  HostSet='{"h1"}', PortSet='{"dyn", "P"}'),
             simulate=nl, depth=14, view=False)]
+    if quick:
+        lsims = lsims[:-1]
     nxs = 40 if quick else 400
     xsims = [Job('x11 sim', 'X11', dict(MaxX=6, AtomicOpen='TRUE'),
                  simulate=nxs, depth=16, view=False)]
@@ -534,7 +581,10 @@ def main(ctx):
         xsims.append(Job('x11 sim refused', 'X11',
                          dict(MaxX=3, AtomicOpen='TRUE', ServerAllows='FALSE'),
                          simulate=40, depth=10, view=False))
-    run_jobs(ctx, jobs + sims + wsims + lsims + xsims, parallel=6)
+    asims = [Job('listen-async sim', 'ListenAsync',
+                 dict(LateStore=late_store), simulate=30 if quick else 300,
+                 depth=12, view=False)]
+    run_jobs(ctx, jobs + sims + wsims + lsims + xsims + asims, parallel=6)
     jobmap = {j.name: j for j in jobs + sims}
 
     phase('tlc')
@@ -708,6 +758,11 @@ def main(ctx):
                                   'direct_unix') and half == 'R':
                 continue
             window = flow_windows[nflow % len(flow_windows)]
+            if nflow % 3 == 1:
+                # everything the answering end wrote fits into the channel
+                # window: it is all parked behind the paused relay when the
+                # EOF and the CLOSE arrive
+                window = (1 << 20, 32768)
             kw = dict(kind=kind, window=window, half=half,
                       slow=nflow % 4 != 3,
                       close_while_paused=nflow % 3 == 1,
@@ -783,6 +838,43 @@ def main(ctx):
                 ctx.divergence(f'real-loop scenario {kind}/{pattern} did not '
                                f'complete: {err}')
         ctx.traces_validated(12)
+
+    # ---- 4e. asynchronous listener creation vs. connection end -------------
+    def judge_la(r, rp):
+        for clause, detail, cause in r['l1']:
+            finds.add('ListenAsync', clause, cause,
+                      f'{detail}; schedule {" ".join(r["script"])}', rp,
+                      len(r['script']))
+        for e in r.get('loop_exceptions', []):
+            finds.add('ListenAsync', 'Exception', e[:60],
+                      f'exception reached the event loop: {e}; schedule '
+                      f'{" ".join(r["script"])}', rp, len(r['script']))
+        if not r['l1'] and r.get('diverged'):
+            ctx.divergence(f'ListenAsync: {r["diverged"]} schedule='
+                           f'{" ".join(r["script"])}')
+
+    nla = 0
+    seen_a = set()
+    for j in asims:
+        for tr in j.traces:
+            labels = [l for l, _ in tr]
+            key = json.dumps(labels, sort_keys=True)
+            if key in seen_a or len(labels) < 3:
+                continue
+            seen_a.add(key)
+            r = F.replay_listen_async(tr)
+            nla += 1
+            ctx.count(('listen-async', key))
+            if nla == 4:
+                ctx.sample({'module': 'ListenAsync', 'schedule': r['script']})
+            judge_la(r, {'kind': 'listen-async', 'labels': labels})
+    for labels in LA_REGRESSIONS:
+        r = F.replay_listen_async(labels)
+        nla += 1
+        ctx.count(('listen-async-regression', json.dumps(labels)))
+        judge_la(r, {'kind': 'listen-async', 'labels': labels})
+    ctx.traces_validated(nla)
+    phase('listen-async')
 
     # ---- 4d. X11 forwarding ------------------------------------------------
     os.makedirs(tlc.WORK, exist_ok=True)
@@ -1071,7 +1163,7 @@ def trace_validation(ctx, F, finds, quick, asis):
     # the same natural scheduling with small channel windows (flow control,
     # WINDOW_ADJUST, paused relays): judged by the monitors on the recording
     # only - Forward.tla's window is counted in packets, not bytes
-    for i in range(18 if quick else 300):
+    for i in range(12 if quick else 300):
         args = dict(seed=ctx.seed * 104729 + i,
                     kind=F.NAT_KINDS[i % len(F.NAT_KINDS)],
                     nconn=2 if i % 3 == 2 else 1,
@@ -1202,6 +1294,10 @@ def replay_one(ctx, F, finds):
         r = F.record_natural(**args)
         for clause, detail in r['l1']:
             finds.add('ForwardTrace', clause, 'natural', detail, rp, 1)
+    elif kind == 'listen-async':
+        r = F.replay_listen_async([tuple(l) for l in rp['labels']])
+        for clause, detail, cause in r['l1']:
+            finds.add('ListenAsync', clause, cause, detail, rp, 1)
     elif kind == 'flow':
         kw = dict(rp['world'])
         kw['window'] = tuple(kw['window'])
